@@ -268,6 +268,9 @@ static int32_t msg_send_inner(struct jls_twr_s * self, const struct msg_header_s
 }
 
 static int32_t msg_send(struct jls_twr_s * self, const struct msg_header_s * hdr, const uint8_t * payload, uint32_t payload_size) {
+    if ((((uint64_t) payload_size) + sizeof(*hdr)) > UINT32_MAX) {
+        return JLS_ERROR_TOO_BIG;  // the message size is a 32-bit quantity
+    }
     int64_t t_start = jls_now();
     int64_t t_stop = t_start + JLS_TIME_MILLISECOND * (int64_t) JLS_BK_MSG_WRITE_TIMEOUT_MS;
     while (jls_now() <= t_stop) {
@@ -384,7 +387,13 @@ int32_t jls_twr_fsr(struct jls_twr_s * self, uint16_t signal_id,
         // arriving before the writer thread handles the message would make it read past it
         return JLS_ERROR_NOT_FOUND;
     }
-    uint32_t length = (data_length * self->fsr_entry_size_bits[signal_id] + 7) / 8;
+    // 64 bits: 2^32 bits of samples and more must not wrap around to a short message
+    uint64_t length_u64 = (((uint64_t) data_length) * self->fsr_entry_size_bits[signal_id] + 7) / 8;
+    if ((length_u64 + sizeof(hdr)) > self->mrb.buf_size) {
+        JLS_LOGW("signal %" PRIu16 ": %" PRIu32 " samples can never fit the message queue", signal_id, data_length);
+        return JLS_ERROR_TOO_BIG;
+    }
+    uint32_t length = (uint32_t) length_u64;
     int32_t rc;
     if (self->flags & JLS_TWR_FLAG_DROP_ON_OVERFLOW) {
         rc = msg_send_inner(self, &hdr, (const uint8_t *) data, length);
